@@ -9,7 +9,10 @@ import (
 	"github.com/anyproto/any-sync/util/crypto"
 )
 
-var ErrInvalidSignature = errors.New("invalid signature")
+var (
+	ErrInvalidSignature = errors.New("invalid signature")
+	ErrInvalidKeyPeerId = errors.New("key peer id does not match the signed key and peer")
+)
 
 type KeyValue struct {
 	KeyPeerId string
@@ -53,7 +56,11 @@ func KeyValueFromProto(proto *spacesyncproto.StoreKeyValue, verify bool) (kv Key
 	kv.PeerId = peerId.PeerId()
 	kv.Key = innerValue.Key
 	kv.AclId = innerValue.AclHeadId
-	// TODO: check that key-peerId is equal to key+peerId?
+	// the slot a value is filed under must be the one named inside the signed bytes:
+	// otherwise any peer could re-file a validly signed value under another device's or key's slot
+	if proto.KeyPeerId != kv.Key+"-"+kv.PeerId {
+		return kv, ErrInvalidKeyPeerId
+	}
 	if verify {
 		if verify, _ = identity.Verify(proto.Value, proto.IdentitySignature); !verify {
 			return kv, ErrInvalidSignature
